@@ -50,9 +50,27 @@ def observe(cls_name, cfg, chk, mirror):
         after = {k: (dict(getattr(opt, attr[k][0])), list(getattr(opt, attr[k][1]))) for k in KINDS}
         log["adapt"].append({"before": before, "after": after, "fitness": fit, "prev": prev, "choices": log["choice"][n0:], "gen": len(rec.snaps)})
 
+    # which pool entries are really APPLIED while one individual is created: every entry's function reports its name
+    applied = []
+
+    def named(kind, name, fn):
+        def call(*a, **k):
+            applied.append((kind, name))
+            return fn(*a, **k)
+        return call
+    for kind, pool in (("selection", opt._selection_pool), ("crossover", opt._crossover_pool), ("mutation", opt._mutation_pool)):
+        for name in list(pool.keys()):
+            entry = pool[name]
+            pool[name] = (named(kind, name, entry[0]),) + tuple(entry[1:])
+    log["applied_mismatch"] = []
+
     def individ(s, c, m):
         log["individ"].append((len(rec.snaps), str(s), str(c), str(m)))
-        return orig_ind(s, c, m)
+        del applied[:]
+        out = orig_ind(s, c, m)
+        if applied != [("selection", str(s)), ("crossover", str(c)), ("mutation", str(m))] and len(log["applied_mismatch"]) < 3:
+            log["applied_mismatch"].append({"generation": len(rec.snaps), "drawn": [str(s), str(c), str(m)], "applied": [list(x) for x in applied]})
+        return out
     opt._adapt, opt._choice_operators, opt._get_new_individ_g = adapt, choice, individ
     # other self-configuring optimizers with OTHER floors / operator counts are constructed before this one runs
     for cn2 in ("SelfCGA", "PDPGA", "SelfCGP", "PDPGP"):
@@ -266,6 +284,9 @@ def main(tier: str) -> int:
             if used != drawn:
                 chk.fail("the operator triple applied to an individual is not the one drawn for it from the updated probabilities",
                          {"run": d, "generation": g + 1, "first_used": used[:2], "first_drawn": drawn[:2]}, {"optimizer": cn, "clause": "uses"})
+        for mm in log["applied_mismatch"][:1]:
+            chk.fail("the operator triple applied to an individual is not the one drawn for it from the updated probabilities",
+                     {"run": d, **mm, "scenario": "the pool entries whose functions ran while this individual was created"}, {"optimizer": cn, "clause": "uses_applied"})
         # PDP*: the operator arrays must change across generations when several operators exist
         if pdp and gens >= 4 and any(len(names[k]) > 1 for k in KINDS):
             arrs = [tuple(tuple(str(x) for x in a["after"][k][1]) for k in KINDS) for a in log["adapt"]]
